@@ -25,6 +25,39 @@ def battery(g):
             ("remove", ("S", "tags", [("k", "after")], ("cmp", "==", ("s", "fault"))), None), ("all", False), ("count", ("noop", "tags"), None)]
 
 
+def targeted(before, after):
+    """reads that ask for exactly what the operation changed: a key / value of a point that differs between the contents before and after
+    the fault-free call (an index that still describes the old contents answers these wrongly)"""
+    out = []
+    if not isinstance(before, list) or not isinstance(after, list):
+        return out
+    for b, a in zip(before, after):
+        if b == a:
+            continue
+        for k, v in (a.get("tags") or {}).items():
+            if (b.get("tags") or {}).get(k) != v and isinstance(v, str):
+                out.append(("count", ("S", "tags", [("k", k)], ("cmp", "==", ("s", v))), None))
+                break
+        for k, v in (a.get("fields") or {}).items():
+            if (b.get("fields") or {}).get(k) != v and isinstance(v, (int, float)) and not isinstance(v, bool) and v == v:
+                out.append(("search", ("S", "fields", [("k", k)], ("cmp", "==", ("n", v))), None, False))
+                break
+        for k, v in (b.get("fields") or {}).items():
+            if (a.get("fields") or {}).get(k) != v and isinstance(v, (int, float)) and not isinstance(v, bool) and v == v:
+                out.append(("count", ("S", "fields", [("k", k)], ("cmp", "==", ("n", v))), None))
+                break
+        for k in (b.get("tags") or {}):
+            if k not in (a.get("tags") or {}):
+                out.append(("get_tag_keys", None))
+                break
+        if a.get("time") != b.get("time") and isinstance(a.get("time"), int):
+            out.append(("count", ("S", "time", [], ("cmp", "==", ("t", a["time"]))), None))
+        if a.get("meas") != b.get("meas"):
+            out.append(("get_measurements",))
+        break
+    return out[:4]
+
+
 def spec_out(disk, o):
     try:
         return pyspec.step([dict(x) for x in disk], o)[1]
@@ -55,6 +88,8 @@ def main(tier, seed):
         g = dbgen.Gen(seed + ci, {})
         g.ids = 50
         bat = battery(g)
+        tq = targeted(rec["before"], rec["after"])
+        bat = bat[:1] + tq + bat[1:]
         if ci % 2 == 1:
             # the insert comes FIRST, before any read has touched the handle again (a read seeks, and hides what the failed call left behind)
             ins = [o for o in bat if o[0] == "insert"][:1]
